@@ -83,7 +83,7 @@ STD_DEFINED = [
     "rsplitn searches from the end (right-most non-overlapping matches) and lists items from the end",
     "matches are non-overlapping and taken left to right (split, splitn, replace)",
     "trim/trim_start/trim_end remove Unicode White_Space (incl. U+0085, U+00A0, U+2003, U+3000)",
-    "to_lowercase/to_uppercase: Unicode simple case mapping (ASCII and one-to-one Latin-1 letters are specified)",
+    "to_lowercase/to_uppercase: Unicode simple case mapping (ASCII, one-to-one Latin-1 letters, and a table of digraphs in upper/title/lower form, Greek and Cyrillic letters are specified)",
     "floor/ceil/round keep the sign of a zero result (ceil(-0.5) = -0); round: ties away from zero",
     "floor is specified as Rust's f64::floor (largest integer <= self); roto's doc text for floor is the "
     "copy of ceil's text",
@@ -137,6 +137,8 @@ def plan(tier):
         ("pattern3", "pattern", dict(sigma=(A, EAC, EGR), maxlen=3 if q else 5, nsigma=(A, EAC, EGR), maxneedle=2)),
         ("pattern2", "pattern", dict(sigma=(A, B), maxlen=5 if q else 7, nsigma=(A, B), maxneedle=2 if q else 3)),
         ("unary", "unary", dict(sigma=(A, UA, EAC, UEAC, SP, NL, EMSP, EURO), maxlen=3 if q else 5)),
+        # case mapping beyond Latin-1: digraphs in upper / TITLE / lower form, Greek, Cyrillic, next to ASCII letters
+        ("case", "unary", dict(sigma=(A, UA, 452, 453, 454, 456, 498, 913, 945, 1040, 1072), maxlen=2 if q else 3)),
         ("sbuf", "sbuf", dict(sigma=(A, EURO), maxlen=2 if q else 3, nsigma=(B, EAC), maxneedle=2)),
         ("ints", "ints", dict(nums=(0, 1, 9, 10, 99, 100, 127, 128, 200, 255) if q else tuple(range(256)))),
         ("float1", "float1", dict(nums=tuple(range(1, 13)) if q else tuple(range(1, 100)),
@@ -433,7 +435,7 @@ def run(tier):
         "ASCII/Latin-1 letters of both cases, \\n, \\r, space and non-ASCII white space; other characters are "
         "assumed to behave like the representative of their class",
         "u64::MAX stands for all indices/counts beyond every length (passed as 1000000 in the spec)",
-        "to_lowercase/to_uppercase are asserted for ASCII and one-to-one Latin-1 letters and caseless characters only",
+        "to_lowercase/to_uppercase are asserted for ASCII, one-to-one Latin-1 letters, the letters of Builtins.CaseTable (digraphs incl. title case, Greek alpha, Cyrillic a) and caseless characters only",
         "float to_string/sqrt/pow are asserted only where the result is exact (see std_defined); "
         "floats are dyadic numbers with small mantissas and the special values",
         "Prefix.new is called with valid lengths only (invalid lengths abort: property C10)",
